@@ -20,7 +20,8 @@ pub enum Step {
     Next { key: u8 },
     /// n consecutive draws (crosses the 100-id cache ranges)
     NextMany { key: u8, n: u8 },
-    Range { key: u8, n: u8 },
+    /// one direct range of n ids (n below, around and above the 100-id step of the cached ranges)
+    Range { key: u8, n: u16 },
     Publish { key: KeyIx, variant: u8 },
     /// publish the content the key already has (a no-op for the store, but the leader still draws a history id for it,
     /// and it may be the publish that carries the next reserved block of the config sequence)
@@ -45,7 +46,7 @@ fn step_strategy() -> impl Strategy<Value = Step> {
     prop_oneof![
         6 => (0u8..3).prop_map(|key| Step::Next { key }),
         3 => (0u8..3, 20u8..130).prop_map(|(key, n)| Step::NextMany { key, n }),
-        3 => (0u8..3, 1u8..40).prop_map(|(key, n)| Step::Range { key, n }),
+        3 => (0u8..3, prop_oneof![4 => 1u16..40, 2 => 96u16..106, 2 => 101u16..330]).prop_map(|(key, n)| Step::Range { key, n }),
         6 => ((0u8..2, 0u8..2, 0u8..3), 0u8..20).prop_map(|((tenant, group, id), variant)| Step::Publish { key: KeyIx { tenant, group, id }, variant }),
         3 => (0u8..2, 0u8..2, 0u8..3).prop_map(|(tenant, group, id)| Step::Republish { key: KeyIx { tenant, group, id } }),
         1 => ((0u8..2, 0u8..2, 0u8..3), 60u8..130).prop_map(|((tenant, group, id), n)| Step::PublishMany { key: KeyIx { tenant, group, id }, n }),
@@ -215,6 +216,9 @@ fn run_case_inner(case: &Case, work: &Path, tag: &str, dir: &Path, strict: bool)
                     labels.insert("crosses_cache_range".into());
                 }
                 Step::Range { key, n } => {
+                    if *n > 100 {
+                        labels.insert("direct_range_longer_than_cache_step".into());
+                    }
                     meaning.push((ops.len(), "range".into(), Some((KEYS[*key as usize % 3].to_string(), *n as u64))));
                     ops.push(NodeOp::SeqRange(KEYS[*key as usize % 3].to_string(), *n as u64));
                 }
